@@ -1308,8 +1308,41 @@ def _collect_items(dty, items, targs):
     return VecV(items)
 
 
+def _collect_result(ex, st, it, dty, targs, okv="Ok", errv="Err", wrap="Result"):
+    """collect::<Result<Vec<_>, E>>(): elements are produced one by one and the first Err stops the iteration"""
+    it = deref(ex, st, it)
+    if not (isinstance(it, LibV) and it.kind == "map"):
+        items = _as_arr(_iter_items(ex, st, it))
+        for e in items.elems:
+            if isinstance(e, Adt) and e.variant == errv:
+                return Forked([(st.clone(), e)])
+        return Forked([(st.clone(), Adt(wrap, okv, (VecV(Arr(tuple(e.fields[0] for e in items.elems))),)))])
+    res = []
+    for s0, items in _force_iter(ex, st.clone(), it.data[0]):
+        items = _as_arr(items)
+        states = [(s0, [])]
+        for e in items.elems:
+            nxt = []
+            for s1, acc in states:
+                for s2, r in call_closure(ex, s1, it.data[1], [e]):
+                    if isinstance(r, Panic):
+                        res.append((s2, r))
+                    elif isinstance(r, Adt) and r.variant == errv:
+                        res.append((s2, Adt(wrap, errv, r.fields)))
+                    else:
+                        nxt.append((s2, acc + [r.fields[0]]))
+            states = nxt
+        res += [(s, Adt(wrap, okv, (VecV(Arr(tuple(acc))),))) for s, acc in states]
+    return Forked(res)
+
+
 @reg_pred(lambda c: (c.trait is not None and _type_head(c.trait) in ("Iterator", "Itertools") and c.method in ("collect", "collect_vec")))
 def _iter_collect(ex, st, c, args, dty):
+    want = (c.targs[0] if c.targs else dty).replace("std::result::", "").replace("std::option::", "").strip()
+    if want.startswith("Result<"):
+        return _collect_result(ex, st, args[0], dty, c.targs)
+    if want.startswith("Option<"):
+        return _collect_result(ex, st, args[0], dty, c.targs, "Some", "None", "Option")
     cases = _force_iter(ex, st.clone(), args[0])
     return Forked([(s, r if isinstance(r, Panic) else _collect_items(dty, r, c.targs)) for s, r in cases])
 
@@ -2376,3 +2409,72 @@ def _lazy_deref(ex, st, c, args, dty):
     lz = deref(ex, st, args[0])
     cases = call_closure(ex, st, lz.data[0], [])
     return Forked([(s, v if isinstance(v, Panic) else ex.alloc(s, v, False)) for s, v in cases])
+
+
+# ---------------------------------------------------------------------------------------------
+# HashMap / BTreeMap as an association list with symbolic keys: entries newest first, value None = tombstone
+
+
+@reg("HashMap::new", "BTreeMap::new", "HashMap::with_capacity", "<HashMap as Default>::default")
+def _map_new(ex, st, c, args, dty):
+    return LibV("map", ())
+
+
+def _map_of(ex, st, r):
+    m = deref1(ex, st, r)
+    if not (isinstance(m, LibV) and m.kind == "map"):
+        raise Unsupported(f"not a map: {m!r}"[:80])
+    return m
+
+
+def _map_lookup(ex, st, m, key):
+    """[(cond, value|None)] : mutually exclusive, exhaustive"""
+    out = []
+    newer = []
+    for k, v in m.data:
+        e = struct_eq(ex, st, k, key)
+        out.append((z3.And([e] + [z3.Not(x) for x in newer]), v))
+        newer.append(e)
+    out.append((z3.And([z3.Not(x) for x in newer] + [z3.BoolVal(True)]), None))
+    return out
+
+
+@reg("HashMap::insert", "BTreeMap::insert")
+def _map_insert(ex, st, c, args, dty):
+    r, k, v = args
+    m = _map_of(ex, st, r)
+    old = _map_lookup(ex, st, m, k)
+    write_through(ex, st, r, LibV("map", ((k, v),) + m.data))
+    return [(cond, Adt("Option", "Some", (val,)) if val is not None else Adt("Option", "None", ())) for cond, val in old]
+
+
+@reg("HashMap::remove", "BTreeMap::remove")
+def _map_remove(ex, st, c, args, dty):
+    r, kref = args
+    k = deref(ex, st, kref)
+    m = _map_of(ex, st, r)
+    old = _map_lookup(ex, st, m, k)
+    write_through(ex, st, r, LibV("map", ((k, None),) + m.data))
+    return [(cond, Adt("Option", "Some", (val,)) if val is not None else Adt("Option", "None", ())) for cond, val in old]
+
+
+@reg("HashMap::get", "BTreeMap::get")
+def _map_get(ex, st, c, args, dty):
+    r, kref = args
+    k = deref(ex, st, kref)
+    m = _map_of(ex, st, r)
+    out = []
+    for cond, val in _map_lookup(ex, st, m, k):
+        if val is None:
+            out.append((cond, Adt("Option", "None", ())))
+        else:
+            out.append((cond, Effect(lambda s, val=val: Adt("Option", "Some", (ex.alloc(s, val, False),)))))
+    return out
+
+
+@reg("HashMap::contains_key", "BTreeMap::contains_key")
+def _map_contains(ex, st, c, args, dty):
+    r, kref = args
+    k = deref(ex, st, kref)
+    m = _map_of(ex, st, r)
+    return [(cond, BoolV(z3.BoolVal(val is not None))) for cond, val in _map_lookup(ex, st, m, k)]
